@@ -1,3 +1,4 @@
+import ast
 """C07 - wavefront views agree with each other; planes act as pointwise phasors."""
 from .. import nf, dims
 from ..nf import Poly, Tup, Const, Slice, NONE, TRUE, FALSE
@@ -16,6 +17,41 @@ def _canon_fresh(text):
     import re
     seen = {}
     return re.sub(r'fresh<(\d+)', lambda m: 'fresh<#%d' % seen.setdefault(m.group(1), len(seen)), text)
+
+
+from ..npmodel import P as P_
+
+
+def product_shape_rule(chk, repo, clause):
+    """Plane.multiply: the new wavefront has the plane's shape, the wavefront's only for a plane without one (C07-e; C08-f: with
+    the test on the wrong operand no plane can be applied after a DFT propagation, whose wavefront shape is an array)"""
+    wf = repo.cls('wavefront.Wavefront')
+    f, paths_, _ = analyse(repo, 'plane.Plane.multiply', types={('sym', 'wavefront'): wf}, max_paths=1024)
+    rets = returns(paths_)
+    SELF, WFR = S('self'), S('wavefront')
+    # the product has the plane's shape; only a plane without a shape of its own (scalar attributes) takes the wavefront's
+    oksh, detsh, nsh = True, '', 0
+    empty_ = nf.Tup([])
+    for p in rets:
+        for e in p.calls('wavefront.Wavefront.empty'):
+            shp = e.bound.get('shape')
+            tests = [(c, pol) for c, pol, _ in p.conds if is_app(c.single_atom() or ('x',), 'eq') and
+                     {nf.vkey(x) for x in c.single_atom()[2]} == {nf.vkey(nf.attr(SELF, 'shape')), nf.vkey(P_(empty_))}]
+            if not tests or shp is None:
+                continue
+            nsh += 1
+            want_ = nf.attr(WFR, 'shape') if tests[0][1] else nf.attr(SELF, 'shape')
+            if shp != want_:
+                oksh, detsh = False, f'shape = {fmt(shp)[:40]} when `self.shape == ()` is {tests[0][1]}'
+    if nsh == 0:
+        # no test of the plane's own shape on the way: is the wavefront's shape tested instead?
+        other = [fmt(c)[:50] for p in rets for c, _pol, _n in p.conds if nf.attr(WFR, 'shape').single_atom() in nf.value_atoms(c)
+                 and 'eq(' in fmt(c)]
+        oksh = False if other else None
+        detsh = (f'the product shape is chosen by `{other[0]}`: a plane with arrays met by a wavefront that already has a shape keeps the '
+                 "wavefront's shape, and the comparison of an ndarray shape with () raises") if other else 'undecided: shape selection not recognised'
+    chk.ob(clause, 'D-flow', f.key, 'the product takes the shape of the plane (of the wavefront for a plane without one)', oksh,
+           detsh or f'{nsh} construction(s)', f.loc())
 
 
 def insert_stores(repo, intensity):
@@ -183,6 +219,22 @@ def run(chk, repo, tier):
         chk.ob('C07-d', 'D-factor', f.key, f'mask is a factor of the phasor [{var}]', hm,
                f'phasor = {fmt(data)}' + ('' if hm else ': samples outside the mask are not zeroed'), f.loc(e.node))
 
+    # the phasor is built from the plane's public `amplitude` / `opd` (properties a subclass may override - the documented way of
+    # making a plane whose OPD is computed on request), not from the backing attributes the constructor filled
+    from ..interp import known_functions as _kf
+    fm_ = repo.func('plane.Plane.multiply')
+    scope_ = [fm_] + [g for g in repo.all_functions() if g.cls is not None and g.cls.key == 'plane.Plane' and g.key not in _kf()
+                      and not g.is_property and not g.is_setter]
+    backing = []
+    for g in scope_:
+        for n_ in ast.walk(g.node):
+            if isinstance(n_, ast.Attribute) and isinstance(n_.ctx, ast.Load) and n_.attr in ('_amplitude', '_opd') \
+                    and isinstance(n_.value, ast.Name) and n_.value.id == 'self':
+                backing.append(f'{g.key} reads self.{n_.attr} at {g.loc(n_)}')
+    chk.ob('C07-c', 'D-flow', fm_.key, 'the phasor is built from the public amplitude / opd of the plane', not backing,
+           '; '.join(sorted(set(backing))[:2]) + (': a subclass that overrides the property is multiplied with what the constructor stored'
+                                                  if backing else 'no read of the backing attributes'), fm_.loc())
+
     # ---------------------------------------------------------------- C07-e
     okw = okf = okp = True
     n = 0
@@ -195,6 +247,7 @@ def run(chk, repo, tier):
             px = b.get('pixelscale')
             pa = px.single_atom() if isinstance(px, Poly) else None
             okp = okp and pa is not None and is_app(pa, 'call:plane._mul_pixelscale')
+    product_shape_rule(chk, repo, 'C07-e')
     chk.ob('C07-e', 'D-flow', f.key, 'wavelength unchanged', okw and n > 0, '', f.loc())
     chk.ob('C07-e', 'D-flow', f.key, 'focal length forwarded', okf and n > 0, '', f.loc())
     chk.ob('C07-e', 'D-flow', f.key, 'pixel scale reconciled by _mul_pixelscale', okp and n > 0, '', f.loc())
